@@ -6,7 +6,7 @@ import RsMatterVerif.Lemmas.CodecDerRead
 `Post x Q`: the computation `x` is `Safe` (no panic, no exhausted fuel) and every value it returns satisfies `Q`.
 Composite decoders are handled by `Post.bind` over the `Post` facts of the reading primitives.
 -/
-namespace Codec.Der
+namespace Codec.DerRd
 
 def Post {α : Type} (x : Except E α) (Q : α → Prop) : Prop := Safe x ∧ ∀ a, x = .ok a → Q a
 
@@ -427,4 +427,4 @@ theorem cmsParse_post (msg : List Nat) :
         · exact (hx.trans hy.2).trans hz.1
         · exact hx.trans hy.1
 
-end Codec.Der
+end Codec.DerRd
